@@ -3,7 +3,7 @@
    The model (ExDefs.v) mirrors ex.c / lbuf.c / reg.c; the regex engine, the shell filter, the file
    system and the file name are arbitrary (universally quantified) parameters of every theorem. *)
 From Coq Require Import List NArith ZArith Bool.
-From NV Require Import Bytes ExDefs ExSpec ExProps.
+From NV Require Import Bytes ExDefs ExSpec ExProps ExRefine.
 Import ListNotations.
 Local Open Scope Z_scope.
 
@@ -56,14 +56,59 @@ Theorem C06_marks_outside_kept : forall nul pos ndel nins r g, 0 <= nins -> (r <
 Proof. exact shift_mark_outside. Qed.
 Print Assumptions C06_marks_outside_kept.
 
-(* FULL STATEMENT AIMED AT (not proved): for every script, the run of ex_main equals, command by command, the run of
-   the reference line editor of ExSpec.v (texts, current line, printed output, identity-marks, registers).
-   Proved below: the per-command equalities, given the resolved range [b,e), for delete (text, current line, register),
-   append/insert/change, print, put, read, yank (register), mark, = and the filter command.  s1 is the state after the address was
-   resolved (it differs from s only in the remembered search keyword and, after `;`, the current line).
-   Missing: `@`, and the lifting through ex_exec's parser to whole scripts (needs a
-   parsed-command datatype and ex_exec = fold over it). *)
-Theorem C06_refines_spec_partial : forall rvalid rfind,
+(* THE REFERENCE EDITOR ON WHOLE SCRIPTS.  ExSpec.v defines the reference line editor as a machine of its own
+   ([rst]: texts, current line, printed output, registers, the rows the marks designate, the remembered search
+   pattern, pending input, quit/writeany flags -- no identities, no ln_glob bits, no undo log, no sequence numbers, no
+   error flags) whose commands are stated with ref_append / ref_insert / ref_change / ref_delete / ref_put / ref_read /
+   ref_print / ref_range / ref_marks_edit; [abs] forgets everything else of a model state.
+   C06_refines_spec: for EVERY script (the pending input of ANY model state: command lines, `|`-joined lists, text
+   blocks), every fuel, and arbitrary regex / filter / file parameters: whenever the reference editor runs the script
+   to its end (ref_main = Some r'), the model's run ends in a state whose texts, current line, printed output,
+   registers, mark rows, remembered pattern and remaining input are exactly r'.  ref_main is None exactly when
+   (a) the script uses a command outside C06's list: global/vglobal (C15), substitute, undo (C04), write (C02),
+   anything ExDefs.v does not model (is_other), or a construct ExDefs.v flags as outside its fragment (registers ; # ^,
+   `r !cmd`, % # \ in an argument, an address-less `!`), or the filter command without writeany (its first step is the
+   modified-buffer question of C02); or (b) the fuel (number of commands per line / nesting depth of @) or the
+   line budget n is exhausted.  All commands of the property's list are inside: a i c d y pu r p = k ! rs and @
+   (@ runs the register as a command line, recursively), plus q!, ec, the unknown-command message and the
+   command without a name.
+   What is SHARED between model and reference (and therefore not checked by this theorem): the cutting of a command
+   line into address / command word / argument / text block (ex_loc ex_cmd ex_idx ex_arg ex_txt: pure functions of the
+   bytes) and the resolution of an address string, which the reference obtains by running ex_region on ITS state
+   (ref_region); the outcomes of ex_region are pinned by C06_resolve_bounds, and both are compared with the
+   independent Python reference editor by the correspondence run.
+   C06_refines_spec_line is the induction step (one command line from ANY state, any pending return value) and
+   C06_refines_spec_step the single command: "after every command" is these two read together with the script theorem. *)
+Theorem C06_refines_spec : forall rvalid rfind filter readfile curpath n fuel s r',
+  ref_main rvalid rfind filter readfile curpath n fuel (abs s) = Some r' ->
+  abs (ex_main rvalid rfind filter readfile curpath n fuel s) = r'.
+Proof. exact main_refines. Qed.
+Print Assumptions C06_refines_spec.
+
+Theorem C06_refines_spec_line : forall rvalid rfind filter readfile curpath fuel ret ln s r' ret',
+  ref_exec rvalid rfind filter readfile curpath fuel ret ln (abs s) = Some (r', ret') ->
+  abs (fst (ex_exec rvalid rfind filter readfile curpath fuel ret ln s)) = r' /\
+  snd (ex_exec rvalid rfind filter readfile curpath fuel ret ln s) = ret'.
+Proof. exact exec_refines_pair. Qed.
+Print Assumptions C06_refines_spec_line.
+
+Theorem C06_refines_spec_step : forall rvalid rfind filter readfile curpath a loc cmd arg txt s r' ret',
+  ref_simple rvalid rfind filter readfile curpath a loc cmd arg txt (abs s) = Some (r', ret') ->
+  abs (fst (ex_simple rvalid rfind filter readfile curpath a loc cmd arg txt s)) = r' /\
+  snd (ex_simple rvalid rfind filter readfile curpath a loc cmd arg txt s) = ret'.
+Proof. exact simple_refines_pair. Qed.
+Print Assumptions C06_refines_spec_step.
+
+(* the reference resolves an address exactly as the model does, on its own state *)
+Theorem C06_ref_region : forall rvalid rfind loc s bad b e s1,
+  ex_region rvalid rfind loc s = (bad, b, e, s1) -> ref_region rvalid rfind loc (abs s) = (bad, b, e, abs s1).
+Proof. exact region_abs. Qed.
+Print Assumptions C06_ref_region.
+
+(* the per-command equations the reference is built from, given the resolved range [b,e) (older statement, kept:
+   it shows each ExSpec.v function at work without the script machinery).  s1 is the state after the address was
+   resolved (it differs from s only in the remembered search keyword and, after `;`, the current line). *)
+Theorem C06_refines_spec_per_command : forall rvalid rfind,
   (forall loc arg s b e s1, ex_region rvalid rfind loc s = (false, b, e, s1) -> slen s <> 0 -> ex_zero loc b e = false ->
      let s' := fst (ec_delete rvalid rfind loc arg s) in (texts s', xrow s') = ref_delete (texts s) b e) /\
   (forall loc cmd txt s b e s1, ex_region rvalid rfind loc s = (false, b, e, s1) ->
@@ -105,10 +150,21 @@ Proof. exact (fun rvalid rfind =>
   conj (delete_refines rvalid rfind) (conj (insert_refines rvalid rfind) (conj (print_refines rvalid rfind)
   (conj (put_refines rvalid rfind) (conj (read_refines rvalid rfind) (conj (yank_refines rvalid rfind)
   (conj (delete_regs rvalid rfind) (conj (mark_refines rvalid rfind) (conj (lnum_refines rvalid rfind) (filter_refines rvalid rfind)))))))))). Qed.
-Print Assumptions C06_refines_spec_partial.
+Print Assumptions C06_refines_spec_per_command.
 
 (* the hypotheses are satisfiable: on a three-line buffer "2,3" resolves to [1,3) *)
 Example C06_nonvacuous :
   let s := init_st [97; 10; 98; 10; 99; 10]%N [] true in
   exists s1, ex_region (fun _ => true) (fun _ _ _ => None) [50; 44; 51]%N s = (false, 1, 3, s1) /\ marks_agree (lb s).
 Proof. eexists. split; [vm_compute; reflexivity | apply sagree_init]. Qed.
+
+(* the script theorem is not vacuous: the reference runs this 14-line script (d, a with a text block, k, i at address 0,
+   'a=, %p, y into a register | pu from it, @: re-running the previous line, q!) to its end on the file a b c *)
+Example C06_script_nonvacuous :
+  let sc := [[50;44;51;100]; [49;97]; [120]; [46]; [49;107;97]; [48;105]; [121]; [122]; [46]; [39;97;61]; [37;112];
+             [36;121;32;114;124;49;112;117;32;114]; [64;58]; [113;33]; [49;100]]%N in
+  exists r', ref_main (fun _ => true) (fun _ _ _ => None) (fun _ _ => None) (fun _ => None) [] 20 20
+               (abs (init_st [97; 10; 98; 10; 99; 10]%N sc true)) = Some r' /\
+             r_txt r' = [[121]; [120]; [120]; [122]; [97]; [120]]%N /\ r_cur r' = 1 /\
+             r_out r' = [OLine [120%N]; OLine [97%N]; OLine [122%N]; OLine [121%N]; ONum 3] /\ r_quit r' = true.
+Proof. eexists. split; [vm_compute; reflexivity | vm_compute; repeat split]. Qed.
